@@ -6,8 +6,8 @@
 (* Names.tla) and DeclGet(S, q), the declarative meaning of a lookup in a  *)
 (* semver-aware name map holding the set S of entries: the exact entry if  *)
 (* there is one, otherwise the entries with the highest version on the     *)
-(* track of q (several only if they tie in precedence: build metadata is   *)
-(* ignored by precedence), never an entry of another name or track.        *)
+(* track of q (a version with build metadata being higher than the same     *)
+(* version without), never an entry of another name or track.              *)
 (*                                                                         *)
 (* Code-shaped layer (crates/wac-types/src/names.rs): `defs` (exact map,   *)
 (* name -> value) and `alt` (track -> the name registered for it) with the *)
@@ -26,8 +26,13 @@ Nm(i) == Universe[i]
 \* two names are compatible iff identical or on the same compatibility track
 Compatible(i, j) == i = j \/ OnSameTrack(Nm(i), Nm(j))
 
-\* precedence comparison (build metadata ignored)
-Lower(i, j) == VerLess(Nm(i).ver, Nm(j).ver)
+\* the order that decides "highest": semver precedence, and of two versions that differ in build
+\* metadata only the one without build metadata is the lower (semver::Version's total order; the
+\* universe has one build string per version, two different build strings would still tie).
+\* Compatibility ignores build metadata; which entry a track lookup returns must not depend on the
+\* order of insertion, so ties are broken by the order, not by arrival.
+Lower(i, j) == \/ VerLess(Nm(i).ver, Nm(j).ver)
+               \/ Nm(i).ver = Nm(j).ver /\ ~Nm(i).build /\ Nm(j).build
 
 DeclGet(S, q) ==
   IF q \in S THEN {q}
